@@ -168,16 +168,20 @@ def thisDecl (f : FieldDecl) : Decl :=
   { scope := f.scope ++ [f.name], name := "this", canon := f.scope ++ [f.name], vis := .priv,
     alias := none, loc := f.thisLoc }
 
-/-- `_add_struct_field_to_scope`.  (`this` goes into the `_Scope` object just created for the
-field; when the field name was a duplicate that object is detached from the table, so the
-model adds `this` only for the first definition.) -/
-def insertField (st : Table × List Err) (f : FieldDecl) : Table × List Err :=
-  let fresh := (lookup st.1 (fieldNameDecl f).key).isNone
-  let st := insert st (fieldNameDecl f)
-  let st := match f.abbr with
-    | some a => insert st (abbrevDecl f a)
-    | none => st
-  if fresh then insert st (thisDecl f) else st
+/-- `_add_struct_field_to_scope`: the field name (LOCAL), its abbreviation (PRIVATE), and
+`this` (PRIVATE) inside the field's own scope.
+
+Deviation kept deliberately small: in the Python `this` goes into the `_Scope` object just
+created for the field, which is *detached* from the table when the field name was a
+duplicate; in the flat table the second `this` collides with the first one and yields one more
+`Duplicate name 'this'` error.  Its location is synthetic, so `error.split_errors` would hide
+it, and a duplicate field name has already produced a visible error at that point: nothing
+observable changes (the harness drops groups with a synthetic location exactly like
+`glue.process_ir`). -/
+def fieldDecls (f : FieldDecl) : List Decl :=
+  fieldNameDecl f :: (match f.abbr with
+    | some a => [abbrevDecl f a]
+    | none => []) ++ [thisDecl f]
 
 /-- `_add_import_to_scope` → `_add_alias_to_scope` (the prelude import is skipped). -/
 def importDecl (i : ImportDecl) : Decl :=
@@ -187,15 +191,19 @@ def importDecl (i : ImportDecl) : Decl :=
 def namedImports (M : ModuleDesc) : List ImportDecl :=
   M.imports.filter (fun i => i.alias != "")
 
+/-- names added before the early exit: modules, then type names -/
+def stage1 (M : ModuleDesc) : List Decl :=
+  M.modules.map moduleDecl ++ M.types.map typeDecl
+
+/-- names added after it: enum values, fields (+ abbreviation, `this`), parameters -/
+def stage2 (M : ModuleDesc) : List Decl :=
+  M.values.map valueDecl ++ M.fields.flatMap fieldDecls ++ M.params.map paramDecl
+
 /-- `_construct_symbol_tables`: module pass, type pass, *early return on errors*, then enum
 values, fields, parameters. -/
 def construct (M : ModuleDesc) : Table × List Err :=
-  let st := insertAll ([], []) (M.modules.map moduleDecl)
-  let st := insertAll st (M.types.map typeDecl)
-  if st.2 ≠ [] then st else
-  let st := insertAll st (M.values.map valueDecl)
-  let st := M.fields.foldl insertField st
-  insertAll st (M.params.map paramDecl)
+  let st := insertAll ([], []) (stage1 M)
+  if st.2 ≠ [] then st else insertAll st (stage2 M)
 
 /-! ## `_find_target_of_reference` -/
 
@@ -326,14 +334,17 @@ structure Obj where
   kind : ObjKind
   deriving Repr
 
-/-- The definitions `ir_util.find_object` can return, in its search order inside one type
-(parameters, then fields / enum values, then subtypes). -/
+/-- The definitions `ir_util.find_object` can return.  (The Python searches a type's
+parameters, then its fields / enum values, then its subtypes, and returns the first match; the
+flat list is searched for the first object with the canonical name.  The two agree whenever
+canonical names are unique — `C12_canonical_roundtrip` — which is the only situation in which
+the resolver calls `find_object`.) -/
 def objects (M : ModuleDesc) : List Obj :=
   M.modules.map (fun m => ⟨[m], .module⟩) ++
-  M.params.map (fun p => ⟨p.scope ++ [p.name], .param⟩) ++
-  M.fields.map (fun f => ⟨f.scope ++ [f.name], .field f.shape⟩) ++
+  M.types.map (fun t => ⟨t.scope ++ [t.name], .type⟩) ++
   M.values.map (fun v => ⟨v.scope ++ [v.name], .value⟩) ++
-  M.types.map (fun t => ⟨t.scope ++ [t.name], .type⟩)
+  M.fields.map (fun f => ⟨f.scope ++ [f.name], .field f.shape⟩) ++
+  M.params.map (fun p => ⟨p.scope ++ [p.name], .param⟩)
 
 /-- `ir_util.find_object_or_none` (lookup by canonical name). -/
 def findObject (os : List Obj) (p : Path) : Option Obj :=
